@@ -305,10 +305,10 @@ def transcription(ctx):
     bounded space; the ORDER in which the real iter_matches yields is compared with the transcription's
     (binding of the transcription - reported, not judged: the order is not part of the property)."""
     off = lambda st: ctx.rng.randrange(st)
-    scale = ctx.pick(1, 8)
-    jobs = [{"k": 1, "pool": 2, "stride": 512 // scale, "offset": off(512 // scale)},
-            {"k": 2, "pool": 1, "stride": 256 // scale, "offset": off(256 // scale)},
-            {"k": 3, "pool": 1, "stride": 16384 // scale, "offset": off(16384 // scale)}]
+    s1, s2, s3 = ctx.pick((509, 251, 16381), (61, 31, 2039))          # prime strides
+    jobs = [{"k": 1, "pool": 2, "stride": s1, "offset": off(s1)},
+            {"k": 2, "pool": 1, "stride": s2, "offset": off(s2)},
+            {"k": 3, "pool": 1, "stride": s3, "offset": off(s3)}]
     spec, cfg = ctx.model(ctx.spec("graph", "RewriteImplMC.tla"), dict(MC_CONSTS, Jobs=jobs, TDepth=2, Explicit=TLA(OUT_OF_DOMAIN)),
                           invariants=IMPL_INVS)
     cases, _ = ctx.tlc_cases(spec, cfg, label="transcription of _match => contract", timeout=3000)
@@ -343,8 +343,8 @@ def plan_for(ctx):
     off = lambda st: ctx.rng.randrange(st)
     mk = lambda k, pool, st: {"k": k, "pool": pool, "stride": st, "offset": off(st)}
     if ctx.quick:
-        return [mk(1, 1, 3), mk(1, 2, 256), mk(2, 1, 96), mk(3, 1, 8192)]
-    return [mk(1, 1, 1), mk(1, 2, 8), mk(2, 1, 4), mk(3, 1, 256)]
+        return [mk(1, 1, 3), mk(1, 2, 257), mk(2, 1, 97), mk(3, 1, 8191)]      # odd / prime strides: no alignment with the radices
+    return [mk(1, 1, 1), mk(1, 2, 7), mk(2, 1, 5), mk(3, 1, 257)]
 
 
 def enumerated(ctx, jobs):
